@@ -31,14 +31,14 @@ func init() {
 	})
 }
 
-var c08Junk = []string{"", "zz", "0", "\x00", "\xff\xfe\x80", "1\n1", " 1", "*", "+1", "{{", "1{{.x}}", strings.Repeat("a", 255), strings.Repeat("a", 256), strings.Repeat("9", 300)}
+var c08Junk = []string{"", "zz", "0", "\x00", "\xff\xfe\x80", "a\xff\xfe", "1\n1", " 1", "*", "+1", "{{", "1{{.x}}", strings.Repeat("a", 255), strings.Repeat("a", 256), strings.Repeat("9", 300)}
 var c08JunkExpand = []string{"", "zz", "\x00", strings.Repeat("a", 255)} // junk whose successors are expanded further
 
 type c08Witness struct {
 	App    string   `json:"app"`
 	Cfg    int      `json:"config_variant"`
 	Mode   string   `json:"mode"`
-	Inputs []string `json:"inputs"`
+	Inputs qstrs    `json:"inputs"`
 	Kind   string   `json:"kind,omitempty"` // directed scenario name
 }
 
@@ -46,6 +46,9 @@ type c08Witness struct {
 func c08Invariants(st *state.State, ca *cache.Cache) (string, string) {
 	if st == nil || ca == nil {
 		return "", ""
+	}
+	if len(st.Code) == 0 && len(st.ExecPath) > 0 && !flagSet(st.Flags, 6) {
+		return "session-left-without-code", fmt.Sprintf("the session is at %v, not terminated, but has no pending bytecode: it cannot be continued", st.ExecPath)
 	}
 	if int(ca.Levels()) != len(st.ExecPath)+1 {
 		return "scope-count-differs-from-depth", fmt.Sprintf("cache has %d scopes, navigation path %v has %d levels", ca.Levels(), st.ExecPath, len(st.ExecPath))
